@@ -1,4 +1,4 @@
-CONSTANTS B = 4  MAXB = 8  CursorRule = "terminator"
+CONSTANTS B = 4  MAXB = 12  CursorRule = "terminator"
 SPECIFICATION TSpec
 POSTCONDITION Accepted
 CHECK_DEADLOCK FALSE
